@@ -1090,18 +1090,5 @@ Theorem keeps_history s h s' : Inv s -> run s h = Some s' ->
   (forall y, In y (ids s') -> In y (ids s) \/ (next_a s <= y)%positive).
 Proof. intros HI H. destruct (run_good h s s' HI H) as [_ [_ [_ [_ [G4 G5]]]]]. auto. Qed.
 
-(* a correspondence case accepted by the kernel is an instance of the theorems: its initial state
-   satisfies the invariant and the model ran the whole history *)
-Lemma run_check_run : forall steps s, run_check s steps = true -> exists s', run s (map fst steps) = Some s'.
-Proof.
-  induction steps as [|[o ob] steps IH]; intros s H; simpl in *; [eauto|].
-  destruct (step s o); try discriminate; apply andb_true_iff in H; destruct H as [_ H]; apply IH; exact H.
-Qed.
-
-Theorem check_case_sound c : check_case c = true ->
-  Inv (fst c) /\ exists s', run (fst c) (map fst (snd c)) = Some s' /\ Inv s' /\ Keeps (fst c) s'.
-Proof.
-  unfold check_case. intros H. apply andb_true_iff in H. destruct H as [H1 H2].
-  apply inv_b_iff in H1. split; [exact H1|].
-  destruct (run_check_run _ _ H2) as [s' Hs]. exists s'. split; [exact Hs|]. apply (run_good _ _ _ H1 Hs).
-Qed.
+(* run_check_run / check_case_sound: the correspondence runs over the extended alphabet (views, adoption);
+   they are proved in Proofs/MolEditView.v *)
